@@ -63,6 +63,8 @@ def run(ctx: Ctx) -> None:
             # ... and a closure capturing four outer variables (the capture list must not depend on the hash seed)
             srcs['proj.mcl'] = ('def outer(alpha: int, beta: int, gamma: int) -> int:\n\tdelta = alpha + 1\n\tdef inner(q: int) -> int:\n'
                                 '\t\treturn q + delta - gamma - beta - alpha\n\treturn inner(1)\n')
+            # ... and an unrelated module whose path has that module's path as a prefix (mcl / mclx): the prefix-pair histories below
+            srcs['proj.mclx'] = 'def other(n: int) -> int:\n\treturn n * 2\n'
         if hidx == 1:
             # a second fixed pool: a user-defined generic class whose method takes a callable over T, instantiated with lambdas at
             # three different type arguments by three modules (signatures of generic methods are re-bound per call site)
